@@ -7,6 +7,7 @@ package main
 
 import (
 	"fmt"
+	"math"
 	"reflect"
 	"sort"
 	"strconv"
@@ -17,6 +18,8 @@ type snapLine struct{ Path, Val string }
 type snapper struct {
 	ids   map[snapKey]int
 	lines []snapLine
+	fast  bool   // hash only: no paths, no lines
+	h     uint64 // FNV-1a over the emitted tokens
 }
 
 type snapKey struct {
@@ -30,7 +33,43 @@ func snapshot(v any) []snapLine {
 	return s.lines
 }
 
-func (s *snapper) emit(path, val string) { s.lines = append(s.lines, snapLine{path, val}) }
+func (s *snapper) emit(path, val string) {
+	if s.fast {
+		s.feed(val)
+		return
+	}
+	s.lines = append(s.lines, snapLine{path, val})
+}
+
+func (s *snapper) feed(val string) {
+	h := s.h
+	for i := 0; i < len(val); i++ {
+		h ^= uint64(val[i])
+		h *= 1099511628211
+	}
+	h ^= 0xff
+	h *= 1099511628211
+	s.h = h
+}
+
+func (s *snapper) feedU(x uint64) {
+	h := s.h
+	for i := 0; i < 8; i++ {
+		h ^= x & 0xff
+		h *= 1099511628211
+		x >>= 8
+	}
+	s.h = h
+}
+
+// snapHash is the snapshot folded into 64 bits (same traversal, same tokens in
+// the same order, no allocation per node). A difference between two snapHash
+// values is always re-derived with full snapshots before it is reported.
+func snapHash(v any) uint64 {
+	s := &snapper{ids: map[snapKey]int{}, fast: true, h: 14695981039346656037}
+	s.walk("", reflect.ValueOf(v))
+	return s.h
+}
 
 func scalarString(v reflect.Value) (string, bool) {
 	switch v.Kind() {
@@ -62,6 +101,79 @@ func (s *snapper) walk(path string, v reflect.Value) {
 	if !v.IsValid() {
 		s.emit(path, "<invalid>")
 		return
+	}
+	if s.fast {
+		switch v.Kind() {
+		case reflect.Bool:
+			s.feedU(1)
+			if v.Bool() {
+				s.feedU(1)
+			} else {
+				s.feedU(0)
+			}
+			return
+		case reflect.Int, reflect.Int8, reflect.Int16, reflect.Int32, reflect.Int64:
+			s.feedU(2)
+			s.feedU(uint64(v.Kind()))
+			s.feedU(uint64(v.Int()))
+			return
+		case reflect.Uint, reflect.Uint8, reflect.Uint16, reflect.Uint32, reflect.Uint64, reflect.Uintptr:
+			s.feedU(3)
+			s.feedU(uint64(v.Kind()))
+			s.feedU(v.Uint())
+			return
+		case reflect.Float32, reflect.Float64:
+			s.feedU(4)
+			s.feedU(math.Float64bits(v.Float()))
+			return
+		case reflect.String:
+			s.feedU(5)
+			s.feed(v.String())
+			return
+		case reflect.Ptr:
+			if v.IsNil() {
+				s.feedU(6)
+				return
+			}
+			k := snapKey{v.Pointer(), v.Type()}
+			if id, ok := s.ids[k]; ok {
+				s.feedU(7)
+				s.feedU(uint64(id))
+				return
+			}
+			id := len(s.ids) + 1
+			s.ids[k] = id
+			s.feedU(8)
+			s.feedU(uint64(id))
+			s.walk("", v.Elem())
+			return
+		case reflect.Struct:
+			s.feedU(9)
+			for i := 0; i < v.NumField(); i++ {
+				s.walk("", v.Field(i))
+			}
+			return
+		case reflect.Slice:
+			if v.IsNil() {
+				s.feedU(10)
+				return
+			}
+			s.feedU(11)
+			s.feedU(uint64(v.Len()))
+			for i := 0; i < v.Len(); i++ {
+				s.walk("", v.Index(i))
+			}
+			return
+		case reflect.Interface:
+			if v.IsNil() {
+				s.feedU(12)
+				return
+			}
+			s.feedU(13)
+			s.feed(v.Elem().Type().String())
+			s.walk("", v.Elem())
+			return
+		}
 	}
 	if str, ok := scalarString(v); ok {
 		s.emit(path, v.Type().String()+" "+str)
@@ -129,6 +241,11 @@ func (s *snapper) walk(path string, v reflect.Value) {
 		}
 		sort.Slice(keys, func(i, j int) bool { return keys[i].ks < keys[j].ks })
 		for _, e := range keys {
+			if s.fast {
+				s.feed(e.ks)
+				s.walk("", v.MapIndex(e.k))
+				continue
+			}
 			s.walk(path+"{"+e.ks+"}", v.MapIndex(e.k))
 		}
 	case reflect.Func:
